@@ -183,6 +183,6 @@ def task_hyp(ctx, n):
 def tasks(tier, scale=1.0):
     words = list(range(1, 257))
     out = [('exh-%d' % i, 'task_exh', {'words': words[i::32]}) for i in range(32)]
-    nh = int((1500 if tier == 'quick' else 25000) * scale)
+    nh = int((1500 if tier == 'quick' else 100000) * scale)
     out += [('hyp-spelling-%d' % i, 'task_hyp', {'n': nh}) for i in range(4)]
     return out
